@@ -53,6 +53,27 @@ CLAIMS = {
             "Inputs without late records, strictly increasing watermarks. Time-keyed group-bys get records with event time <= key time. One recorded "
             "finding (known_findings.jsonl).", "TLA+ spec + TLC bounded-exhaustive script export replayed on real nodes + TLC trace validation",
             "DESIGN.md 6/C18"),
+    "C20": ("model_checking",
+            "Tvf.tla specifies max_diff_watermark as a two-variable state machine (largest rounded time seen, current watermark). TLC explores every "
+            "input sequence up to MaxLen over 6 time values x +/- plus a source watermark for 6 (max_diff, resolution, base instant) configurations and "
+            "exports them; each sequence and seeded random longer ones are fed to the real node (built through the TVF descriptor's Materialize, the "
+            "same node object re-run for every script) and TLC compares, after every record, the observed output with the specification.",
+            "Whole-second times and resolutions. Trusted: scripted physical datasource stub, value mapping, TLC.",
+            "TLA+ spec + TLC sequence export replayed on the real node + TLC trace validation", "DESIGN.md 6/C20"),
+    "C21": ("model_checking",
+            "Tvf.tla states the three tumble clauses on every emitted row (window_start <= time < window_end, length, offset alignment, pass-through of "
+            "other fields/watermarks), range as the ascending sequence of [start,end), and poll as rounds (retract snapshot k-1, emit snapshot k, "
+            "watermark). TLC enumerates input sequences / parameter grids / snapshot sequences, the real nodes are run on each (range also with "
+            "correlated arguments on a re-used node), and TLC validates the traces.",
+            "Window lengths 1..6 s (origin-independent). Poll observed by rounds (clock values renamed). Trusted: harness stubs, TLC.",
+            "TLA+ spec + TLC enumeration replayed on the real nodes + TLC trace validation", "DESIGN.md 6/C21"),
+    "C22": ("model_checking",
+            "ConsistentOutput.tla: Layer I models the pending list and the retraction cancellation; Layer P says that at every forwarded watermark W the "
+            "consolidated output equals the consolidated input at or below W, that nothing is emitted that was not received and that everything is out "
+            "by end of stream. TLC model-checks Layer I against Layer P for every valid changelog up to MaxLen, exports the scripts, and validates the "
+            "traces of the real wrapper for those and for random long changelogs. Two genuine defects found this way were repaired (fix: commits).",
+            "Valid input changelogs. Trusted: scripted source, TLC.", "TLA+ spec + TLC bounded-exhaustive script export replayed on the real wrapper + TLC trace validation",
+            "DESIGN.md 6/C22"),
 }
 
 NA_DEFAULT = "check not built yet (work in progress; will be claimed once its TLA+ spec and conformance harness are committed)"
